@@ -249,7 +249,7 @@ class ObjectCodeGenerator:
         )
 
     def _generate_field(self, protocol_field):
-        optional = protocol_field.get("optional")
+        optional = get_boolean_attribute(protocol_field, "optional")
         self._check_optional_field(optional)
 
         field_code_generator = (
@@ -272,10 +272,10 @@ class ObjectCodeGenerator:
             self._context.reached_optional_field = True
 
     def _generate_array(self, protocol_array):
-        optional = protocol_array.get("optional")
+        optional = get_boolean_attribute(protocol_array, "optional")
         self._check_optional_field(optional)
 
-        delimited = protocol_array.get("delimited")
+        delimited = get_boolean_attribute(protocol_array, "delimited")
         if delimited and not self._context.chunked_reading_enabled:
             raise RuntimeError(
                 "Cannot generate a delimited array instruction unless chunked reading is enabled."
@@ -302,7 +302,7 @@ class ObjectCodeGenerator:
             self._context.reached_optional_field = True
 
     def _generate_length(self, protocol_length):
-        optional = protocol_length.get("optional")
+        optional = get_boolean_attribute(protocol_length, "optional")
         self._check_optional_field(optional)
 
         field_code_generator = (
